@@ -134,6 +134,10 @@ def run_one(plan_name, script, policy, trace=True):
 
         def send(data):
             n = len(data)
+            # the argument has been evaluated (WriteBuf's `snap`), the system call has not happened yet: socket.send releases the
+            # interpreter lock, so the writer and the queueing threads run during it - a scheduling point of its own
+            if getattr(s, "tracing", False):
+                s.yield_now(("call", "io", "send"))
             try:
                 k = real_send(data)
             except OSError:
